@@ -22,6 +22,17 @@ opens = [f for f in kf if f["status"] == "open"]
 out = [MARK]
 out.append(read("notes/design9-intro.md"))
 
+cp = os.path.join(ROOT, "notes", "cost.json")
+if os.path.exists(cp):
+    cost = json.load(open(cp))
+    out.append("\n#### Measured cost (16 cores)\n\n")
+    out.append(read("notes/design9-cost-intro.md"))
+    out.append("\n| property | configurations | quick: jobs | quick: wall | thorough: jobs | thorough: wall |\n|---|---|---|---|---|---|\n")
+    for pid in sorted(cost):
+        sp = json.load(open(os.path.join(ROOT, "harness", pid.lower(), "spec.json")))
+        q, t = cost[pid].get("quick", {}), cost[pid].get("thorough", {})
+        out.append("| %s | %s | %s | %s | %s | %s |\n" % (pid, ", ".join(sp.get("configs", ["default"])), q.get("jobs", ""), ("%.0f s" % q["wall_s"]) if q else "", t.get("jobs", ""), ("%.0f s" % t["wall_s"]) if t else ""))
+
 out.append("\n### 9.3 Defects of the pinned tree and their disposition\n\n")
 out.append(read("notes/design9-defects-intro.md"))
 # fix commits for defects already confirmed by probes in the design phase (section 5)
